@@ -40,6 +40,9 @@ def option_matrix(tier):
         for sb in subs:
             passthrough = 'rvint' in sb or 'packedpid' in sb
             out.append(dict(cleaned=cleaned, subsamples=dict(sb), passthrough=passthrough, fields='all' if passthrough else ['N', 'x_com']))
+    # the same selections written with B before A (and the column kinds first): A must still precede B in the table
+    out.append(dict(cleaned=True, subsamples=dict(B=True, A=True, rvint=True, packedpid=True), passthrough=True, fields='all'))
+    out.append(dict(cleaned=False, subsamples=dict(pid=True, pos=True, B=True, A=True), fields=['N']))
     out.append(dict(cleaned=True, subsamples=dict(A=True, B=True, pid=True), unpack_bits=True, fields=['id']))
     out.append(dict(cleaned=False, subsamples=dict(A=True, pid=True, pos=True), unpack_bits=['density', 'tagged'], fields=['id']))
     out.append(dict(cleaned=False, subsamples=True, fields=['N']))
@@ -108,12 +111,16 @@ def check(run):
     if not bad:
         root = tempfile.mkdtemp(prefix='c01_')
         try:
-            T = synth.make_catalog(root, (3, 2, 4), seed=run.seed + 77, slab_numbers=[0, 2, 5])
-            for cleaned in (True, False):
-                why = judge(T, dict(cleaned=cleaned, subsamples=dict(A=True, B=True, rvint=True, packedpid=True), passthrough=True, fields='all'))
-                nev += 1
-                if why and not bad:
-                    bad = (dict(slab_numbers=[0, 2, 5], cleaned=cleaned), f'superslab files 000, 002, 005: {why}')
+            for numbers in ([0, 2, 5], [0, 7, 1000]):          # four-digit superslab numbers: halo_info_1000.asdf next to halo_info_000.asdf
+                T = synth.make_catalog(root + '/n%d' % numbers[-1], (3, 2, 4), seed=run.seed + 77, slab_numbers=numbers)
+                for cleaned in (True, False):
+                    for path in (None, synth.halo_files(T, [2]), synth.halo_files(T, [2, 0])):
+                        sel = None if path is None else ([2] if len(path) == 1 else [2, 0])
+                        why = judge(T, dict(cleaned=cleaned, subsamples=dict(A=True, B=True, rvint=True, packedpid=True), passthrough=True, fields='all'),
+                                    path=None if path is None else (path if len(path) > 1 else path[0]), slabs=sel)
+                        nev += 1
+                        if why and not bad:
+                            bad = (dict(slab_numbers=numbers, cleaned=cleaned, files=sel), f'superslab files {numbers}, selection {sel}: {why}')
         finally:
             shutil.rmtree(root, ignore_errors=True)
     if bad:
